@@ -204,6 +204,11 @@ impl Allocator {
     #[cfg(feature = "gc_stress")]
     self.collect_garbage_with_value(context, reference);
 
+    #[cfg(feature = "verif")]
+    if crate::verif::on_alloc(self.bytes_allocated, &mut self.next_gc) {
+      self.collect_garbage_with_value(context, reference);
+    }
+
     if self.bytes_allocated > self.next_gc {
       self.collect_garbage_with_value(context, reference);
     }
@@ -233,6 +238,11 @@ impl Allocator {
 
     #[cfg(feature = "gc_stress")]
     self.collect_garbage_with_value(context, obj);
+
+    #[cfg(feature = "verif")]
+    if crate::verif::on_alloc(self.bytes_allocated, &mut self.next_gc) {
+      self.collect_garbage_with_value(context, obj);
+    }
 
     if self.bytes_allocated > self.next_gc {
       self.collect_garbage_with_value(context, obj);
@@ -275,6 +285,9 @@ impl Allocator {
       writeln!(stdout, "-- gc begin {} --", self.gc_count).expect("could not write to stdout");
     }
 
+    #[cfg(feature = "verif")]
+    let verif_objects_before = self.heap.len() + self.obj_heap.len() + self.nursery_obj_heap.len();
+
     if context.can_collect() {
       self.trace_root(context);
       self.temp_roots.iter().for_each(|root| {
@@ -287,6 +300,15 @@ impl Allocator {
 
       self.bytes_allocated = heap_size + obj_heap_size;
       self.next_gc = self.bytes_allocated * GC_HEAP_GROW_FACTOR
+    }
+
+    #[cfg(feature = "verif")]
+    if context.can_collect() {
+      crate::verif::on_collect(
+        verif_objects_before,
+        self.heap.len() + self.obj_heap.len() + self.nursery_obj_heap.len(),
+        self.bytes_allocated,
+      );
     }
 
     #[cfg(any(
@@ -353,6 +375,11 @@ impl Allocator {
   fn sweep_obj_heap(&mut self) -> usize {
     #[cfg(feature = "gc_stress")]
     return self.sweep_obj_full();
+
+    #[cfg(all(feature = "verif", not(feature = "gc_stress")))]
+    if crate::verif::force_full() {
+      return self.sweep_obj_full();
+    }
 
     #[cfg(not(feature = "gc_stress"))]
     if self.gc_count % 10 == 0 {
@@ -534,6 +561,62 @@ fn debug_free_obj(obj: &ObjectHandle) {
     obj.size(),
     DebugWrapDyn(obj, 1)
   )
+}
+
+#[cfg(feature = "verif")]
+impl Allocator {
+  /// Gather statistics about the heap by walking every handle
+  pub fn verif_stats(&self) -> crate::verif::HeapStats {
+    use crate::object::ObjectKind;
+    let mut stats = crate::verif::HeapStats::default();
+    let mut live_strings: std::collections::HashSet<usize> = std::collections::HashSet::new();
+
+    for (heap, is_nursery) in [(&self.obj_heap, false), (&self.nursery_obj_heap, true)] {
+      for obj in heap.iter() {
+        let kind = obj.kind();
+        stats.kind_counts[kind as usize] += 1;
+        stats.recomputed_bytes += obj.size() as u64;
+        if is_nursery {
+          stats.nursery_objects += 1;
+        } else {
+          stats.old_objects += 1;
+        }
+        if kind == ObjectKind::String {
+          stats.strings += 1;
+          live_strings.insert(verif_handle_addr(obj));
+        }
+      }
+    }
+    for item in self.heap.iter() {
+      stats.other_objects += 1;
+      stats.recomputed_bytes += item.size() as u64;
+    }
+
+    stats.bytes_allocated = self.bytes_allocated as u64;
+    stats.next_gc = self.next_gc as u64;
+    stats.gc_count = self.gc_count as u64;
+    stats.intern_len = self.intern_cache.len() as u64;
+    stats.temp_roots = self.temp_roots.len() as u64;
+    for (key, value) in self.intern_cache.iter() {
+      let value_bytes: &str = value;
+      let addr = (value_bytes.as_ptr() as usize)
+        .wrapping_sub(crate::align_utils::get_array_offset::<crate::object::ObjHeader, u8>());
+      if !live_strings.contains(&addr) {
+        stats.intern_dangling += 1;
+        continue;
+      }
+      let value_str: &str = value;
+      if *key != value_str {
+        stats.intern_mismatch += 1;
+      }
+    }
+    stats
+  }
+}
+
+#[cfg(feature = "verif")]
+fn verif_handle_addr(obj: &ObjectHandle) -> usize {
+  usize::from_str_radix(format!("{obj:p}").trim_start_matches("0x"), 16).unwrap_or(0)
 }
 
 impl Default for Allocator {
